@@ -294,7 +294,9 @@ Definition all_hashable (c : cfg) : bool := forallb (fun k => kmem k (c_hashable
 Inductive sprog :=
 | PNew (db : bool) (n : string)
 | PSub (db : bool) (n : string) (parent : sprog)
-| PAttr (p : sprog) (n : string).
+| PAttr (p : sprog) (n : string)
+| PObs (p : sprog).          (* the object is observed (hash(), ==, str(), set membership) before being used further:
+                               observations do not change what the object is *)
 
 Fixpoint ev_sprog (p : sprog) : res schema :=
   match p with
@@ -304,6 +306,7 @@ Fixpoint ev_sprog (p : sprog) : res schema :=
                  | Ok s => if sdb s then Ok (SSub n false s) else Err "NotADatabase"  (* Schema.n is a Table; not generated *)
                  | Err e => Err e
                  end
+  | PObs q => ev_sprog q
   end.
 
 (* the schema argument of Table(name, schema=...) / attribute access on a Schema *)
@@ -331,13 +334,15 @@ Definition ev_route (r : sroute) : res (option schema) :=
   end.
 
 (* builder calls on a table (each returns a copy) *)
-Inductive top := OpAs (a : string) | OpFor (txt : string) | OpPortion (txt : string).
+Inductive top := OpAs (a : string) | OpFor (txt : string) | OpPortion (txt : string)
+               | OpObs.   (* hash(t), t == t, str(t), t in {t} on the intermediate object; then the derivation goes on *)
 
 Definition apply_op (r : res table) (o : top) : res table :=
   match r with
   | Err e => Err e
   | Ok t =>
     match o with
+    | OpObs => Ok t
     | OpAs a => Ok {| tname := tname t; tschema := tschema t; talias := Some a; tfor := tfor t; tportion := tportion t |}
     | OpFor x => if is_some (tfor t) || is_some (tportion t) then Err "AttributeError"
                  else Ok {| tname := tname t; tschema := tschema t; talias := talias t; tfor := Some x; tportion := None |}
